@@ -10,11 +10,14 @@ against the whole-program Lean model (whose name handling is Model.Scope, the su
 the C11 theorems)."""
 import json
 import os
+import re
 
 from . import impl, asmrun
 
 ORD_POOL = ["val", "tmp", "cnt", "Foo", "x.y", "buf$", "go", "k9"]
 LOC_POOL = ["1", "2", "10", "1$", "2$", "77$"]
+# many scopes, names whose digits run into the scope counter if the separator were lost: scope 1 + "12$" / scope 11 + "2$"
+LOC_POOL_DIGITS = ["1", "2", "11", "12", "21", "22", "111", "1$", "2$", "11$", "12$", "21$", "112$"]
 
 
 class Unit:
@@ -72,8 +75,10 @@ class World:
             p.children.append(u)
         # ---- symbol plan: who defines what, who exports what
         exported = {}        # lower -> unit
+        self.many = rng.random() < 0.25
+        self.loc_pool = LOC_POOL_DIGITS if self.many else LOC_POOL
         for u in self.units:
-            for nm in rng.sample(ORD_POOL, rng.randint(1, 4)):
+            for nm in rng.sample(ORD_POOL, rng.randint(5, 8) if self.many else rng.randint(1, 4)):
                 u.own[nm.lower()] = (nm, rng.choice(["label", "label", "const"]))
         order = list(self.units)
         rng.shuffle(order)
@@ -118,7 +123,7 @@ class World:
                 form = self.export_form.get((u.idx, nm.lower()))
                 lines.append(("olabel", nm, form == "inline"))
             body = []
-            locs = rng.sample(LOC_POOL, rng.choice([0, 1, 1, 2, 3]))
+            locs = rng.sample(self.loc_pool, rng.choice([0, 1, 1, 2, 3]) if not self.many else rng.choice([1, 2, 3, 4]))
             for ln in locs:
                 body.append(("llabel", ln))
                 for _ in range(rng.randint(1, 2)):
@@ -460,6 +465,7 @@ def run(ctx):
                     f.write(t)
             errors, image, judged, bound = w.evaluate(0o1000 if base is None else base)
             r = impl.assemble(files[:nmain], want_symbols=False)
+            ikeys = sorted(k.lower() for k in r.compiler.symbols) if r.outcome == "ok" and hasattr(r.compiler, "symbols") else None
             inp = {"files": [(os.path.basename(p), t) for p, t in files], "nmain": nmain, "fault": w.fault}
             names = {}
             for u in w.units:
@@ -503,10 +509,12 @@ def run(ctx):
                 ctx.count("not judged by the rules (same-file double export / constant cycle)")
             mfiles = [("/w/" + os.path.basename(p), t) for p, t in files]
             reqs.append(asmrun.asm_request(mfiles, nmain))
-            jobs.append((inp, files, r))
+            jobs.append((inp, files, r, ikeys))
+            if w.many:
+                ctx.count("worlds with many scopes and multi-digit local names")
         finally:
             impl.drop_scratch(d)
-    for (inp, files, r), a in zip(jobs, ctx.driver.ask(reqs)):
+    for (inp, files, r, ikeys), a in zip(jobs, ctx.driver.ask(reqs)):
         m = asmrun.parse_answer(a)
         if m["outcome"] == "unsupported":
             ctx.count("model: unsupported")
@@ -524,6 +532,19 @@ def run(ctx):
         aborted = "aborted" in m.get("note", "") or "critical" in m.get("note", "")
         if not aborted and idg != m["diags"]:
             problems.append("diagnostics")
+        # the keys of the symbol table: '.internal<k>.<name>' exactly as Model.Scope qualifies them; '.local<k>.<name>' up to
+        # the numbering of the scopes (the code numbers a '.repeat' pass when it gets to evaluate it)
+        if m["outcome"] == "ok" and ikeys is not None:
+            def norm(keys):
+                out = []
+                for k in keys:
+                    mm = re.match(r"^\.local(\d+)\.(.+)$", k)
+                    out.append(".local#." + mm.group(2) if mm else k)
+                return sorted(out)
+            malformed = [k for k in ikeys if not re.match(r"^\.(local|internal)[1-9]\d*\.[^.].*$", k)]
+            if malformed or norm(ikeys) != norm(k.lower() for k in m["keys"]):
+                problems.append("symbol-table keys (impl %s)" % (malformed or norm(ikeys))[:12])
+                ctx.count("key-format-problems")
         if problems:
             ctx.disagree("whole-program model (scoping): " + ", ".join(problems), inp,
                          {"outcome": m["outcome"], "base": m["base"], "code": m["code"].hex(), "diags": m["diags"][:8], "note": m.get("note")},
